@@ -255,6 +255,33 @@ def r7_connect_target(ctx, R7):
         ctx.ob(R7, cpi.qual, "_tunnel_host uses the URL-level normaliser (brackets kept), not the bracket-stripping one", ok, detail, witness=r.witness(), node=cpi.node)
 
 
+def r7_set_tunnel(ctx, R7):
+    """the connection hands the CONNECT target to the stdlib as it got it and does not rewrite it afterwards"""
+    m = ctx.model
+    stf = m.method(f"{CN}.HTTPConnection", "set_tunnel")
+    rows = [r for r in rows_of(ctx, stf) if r.returns]
+    ctx.sites(R7, len(rows), 1, "returning rows of HTTPConnection.set_tunnel")
+    ph, pp_ = "p:" + stf.params()[0], "p:" + stf.params()[1]
+    seen = set()
+    for r in rows:
+        calls = [e for e in r.events("call") if e[1] == "super.set_tunnel"]
+        rewrites = [e for e in r.events("store") if e[1] == "self" and e[2] in ("_tunnel_host", "_tunnel_port")] + \
+                   [e for e in r.ev if e[0] in ("setattr", "delattr") and len(e) > 2 and e[2] in ("_tunnel_host", "_tunnel_port")]
+        k = (tuple(calls), tuple(rewrites))
+        if k in seen:
+            continue
+        seen.add(k)
+        ok = len(calls) == 1
+        if ok:
+            a = _args(calls[0])
+            pos = [x for x in a if "=" not in x.split("(", 1)[0]]
+            kw = _kw(a)
+            ok = kw.get("host", pos[0] if pos else None) == ph and kw.get("port", pos[1] if len(pos) > 1 else None) == pp_
+        ctx.ob(R7, stf.qual, "set_tunnel hands host and port to the stdlib unchanged", ok, "" if ok else f"calls {calls}: the CONNECT target differs from the one the pool asked for", witness=r.witness(), node=stf.node)
+        ctx.ob(R7, stf.qual, "the CONNECT target recorded by the stdlib is not rewritten afterwards", not rewrites,
+               "" if not rewrites else f"{rewrites}: the request line of CONNECT (and the name verified inside the tunnel) is no longer the URL's bracketed host", witness=r.witness(), node=stf.node)
+
+
 def r8_absolute_form(ctx, R8):
     m = ctx.model
     af = m.func(f"{PM}.PoolManager._proxy_requires_url_absolute_form")
